@@ -1,3 +1,7 @@
+import re
+
+_LINE_ENDS = re.compile("\r\n|\n|\r")  # the same line ends a file opened in text mode is cut at
+
 
 class RawStringLineReader():
 
@@ -6,6 +10,6 @@ class RawStringLineReader():
 
 
     def read_lines(self):
-        for a_line in self._raw_string.split("\n"):
+        for a_line in _LINE_ENDS.split(self._raw_string):
             if a_line.strip() != "":
                 yield a_line
